@@ -53,12 +53,23 @@ PRIMITIVES = {
         ("lbry.stream.descriptor.random_iv_generator", "16 random bytes per IV"),
         ("lbry.stream.descriptor.format_sd_info", "descriptor dict layout"),
         ("lbry.stream.descriptor.read_bytes", "chunk reader"),
-        ("lbry.blob.blob_info.BlobInfo.__init__", "blob info fields"),
         ("lbry.blob.blob_file.AbstractBlob.decrypt", "a blob decrypts its own bytes"),
         ("lbry.stream.descriptor.StreamDescriptor.calculate_old_sort_sd_hash", "legacy sd hash"),
         ("lbry.stream.descriptor.StreamDescriptor.length", "stream length = sum of blob lengths"),
     ],
     "C03": [
+        ("lbry.wallet.transaction.Transaction.ensure_all_have_same_ledger_and_wallet", "funding accounts share one ledger"),
+        ("lbry.wallet.transaction.Output.pay_pubkey_hash", "how a change / payment output is built"),
+        ("lbry.wallet.script.OutputScript.pay_pubkey_hash", "payment script values"),
+        ("lbry.wallet.transaction.Transaction.pay", "pay = create with the given outputs"),
+        ("lbry.wallet.transaction.Transaction.claim_create", "claim_create = create with the claim output"),
+        ("lbry.wallet.transaction.Transaction.claim_update", "claim_update spends the old claim into the new one"),
+        ("lbry.wallet.transaction.Transaction.support", "support = create with the support output"),
+        ("lbry.wallet.transaction.Transaction.purchase", "purchase = create with payment + receipt"),
+        ("lbry.wallet.transaction.Input.spend", "an input spends exactly the given output"),
+        ("lbry.wallet.transaction.Transaction.add_inputs", "inputs are appended"),
+        ("lbry.wallet.transaction.Transaction.add_outputs", "outputs are appended"),
+        ("lbry.wallet.transaction.Transaction._add", "appending resets caches and numbers positions"),
         ("@C14", "reservation and release machinery"),
         ("module*:lbry.wallet.hash", "transaction references of database rows: id, hash and height"),
         ("lbry.wallet.database.constraints_to_sql", "constraint → SQL (is_reserved = False must reach the query)"),
@@ -95,6 +106,7 @@ PRIMITIVES = {
         ("lbry.wallet.transaction.Transaction._serialize_outputs", "outputs block of the preimage"),
     ],
     "C05": [
+        ("lbry.wallet.transaction.Transaction._add", "appending resets caches and numbers positions"),
         ("module*:lbry.wallet.bcd_data_stream", "every read/write primitive of the wire stream"),
         ("module*:lbry.wallet.hash", "transaction references: id ↔ hash, null hash"),
         ("lbry.wallet.transaction.Transaction._serialize_outputs", "outputs block"),
@@ -140,6 +152,12 @@ PRIMITIVES = {
         ("class:lbry.wallet.ledger.Ledger", "main-net ledger constants (genesis hash/bits, target timespan, checkpoints reference)"),
     ],
     "C08": [
+        ("lbry.wallet.database.Database.select_transactions", "transaction query"),
+        ("lbry.wallet.database.Database.get_transaction", "stored transaction lookup"),
+        ("lbry.wallet.network.Network.retriable_call", "retry until connected"),
+        ("lbry.wallet.network.Network.get_merkle", "merkle proof RPC"),
+        ("lbry.wallet.network.Network.get_transaction_batch", "batch fetch RPC"),
+        ("lbry.wallet.network.Network.rpc", "RPC send"),
         ("lbry.wallet.transaction.Input.deserialize_from", "input reader (the id of a segwit transaction is computed from a re-serialisation)"),
         ("lbry.wallet.transaction.Input.__init__", "input fields"),
         ("lbry.wallet.header.Headers.get_all_missing_headers", "which chunks still have to be fetched"),
@@ -152,6 +170,11 @@ PRIMITIVES = {
         ("lbry.wallet.header.Headers.deserialize", "header fields incl. merkle root"),
     ],
     "C09": [
+        ("lbry.wallet.network.Network.retriable_call", "retry until connected"),
+        ("lbry.wallet.network.Network.rpc", "RPC send"),
+        ("lbry.wallet.network.Network.get_history", "history RPC"),
+        ("lbry.wallet.database.Database.get_transaction", "stored transaction lookup"),
+        ("lbry.wallet.database.Database.select_transactions", "transaction query"),
         ("module*:lbry.wallet.hash", "transaction references"),
         ("lbry.wallet.database.Database.select_txos", "the TXO query incl. its joins"),
         ("lbry.wallet.database.Database.get_txos", "rows → outputs"),
@@ -190,6 +213,9 @@ PRIMITIVES = {
         ("lbry.blob_exchange.server.BlobServerProtocol.connection_lost", "server loss handling"),
     ],
     "C11": [
+        ("lbry.utils.get_colliding_prefix_bits", "shared prefix length (bucket depth test)"),
+        ("lbry.dht.peer.PeerManager.get_last_replied", "when a contact last replied"),
+        ("lbry.dht.protocol.protocol.KademliaProtocol._add_peer.<locals>.probe", "the liveness probe is a ping of that contact"),
         ("lbry.dht.protocol.routing_table.KBucket.get_bad_or_unknown_peers", "probe candidates"),
         ("lbry.dht.protocol.routing_table.KBucket.remove_peer", "removal from a bucket"),
         ("lbry.dht.protocol.routing_table.KBucket.get_peer", "lookup by node id"),
@@ -202,6 +228,12 @@ PRIMITIVES = {
         ("module:lbry.dht.constants[HASH_CLASS,HASH_LENGTH,HASH_BITS]", "the 384-bit id space"),
     ],
     "C12": [
+        ("lbry.dht.peer.PeerManager.report_last_replied", "reply record"),
+        ("lbry.dht.peer.PeerManager.report_last_requested", "request record"),
+        ("lbry.dht.peer.PeerManager.report_last_sent", "send record"),
+        ("lbry.dht.protocol.iterative_find.FindResponse.get_close_kademlia_peers", "contacts of a reply as peers"),
+        ("lbry.dht.protocol.protocol.KademliaProtocol.get_rpc_peer", "RPC handle of a peer"),
+        ("lbry.dht.protocol.protocol.KademliaRPC.ping", "ping handler"),
         ("module*:lbry.dht.error", "DHT exception classes and their bases"),
         ("lbry.dht.peer.PeerManager.peer_is_good", "goodness of a peer"),
         ("lbry.dht.peer.PeerManager.contact_triple_is_good", "goodness verdict from reply / request / failure records"),
@@ -228,6 +260,7 @@ PRIMITIVES = {
         ("module:lbry.dht.constants[HASH_CLASS,HASH_LENGTH,HASH_BITS,DATA_EXPIRATION]", "id space; announcements live 24 hours"),
     ],
     "C13": [
+        ("lbry.wallet.account.DeterministicChannelKeyManager.generate_next_key", "channel key derivation loop"),
         ("lbry.wallet.account.Account.decrypt", "account decryption"),
         ("lbry.wallet.account.Account.encrypt", "account encryption"),
         ("lbry.wallet.account.Account._decrypt_seed", "seed decryption check"),
@@ -258,8 +291,6 @@ PRIMITIVES = {
     "C15": [
         ("class:lbry.wallet.script.InputScript", "input templates and their matching order"),
         ("class:lbry.wallet.script.OutputScript", "output templates, names and matching order"),
-        ("lbry.schema.base.Signable.__len__", "len(payload) == len(bytes(payload))"),
-        ("lbry.schema.base.Signable.__bytes__", "payload bytes"),
         ("lbry.schema.base.Signable.to_bytes", "payload layout"),
         ("lbry.wallet.script.OutputScript.is_support_claim", "support classification"),
         ("lbry.wallet.script.OutputScript.is_support_claim_data", "support-with-data classification"),
@@ -302,12 +333,7 @@ PRIMITIVES = {
         ("module*:lbry.dht.error", "DHT exception classes and their bases"),
     ],
     "C18": [
-        ("lbry.blob.blob_manager.BlobManager.stop", "stop closes blobs and EMPTIES the shared completed set"),
-        ("lbry.blob.blob_manager.BlobManager.__init__", "the completed set is shared with the DHT store"),
-        ("lbry.stream.stream_manager.StreamManager.recover_streams", "rebuilt streams: every present blob incl. the sd blob is re-checked"),
-        ("lbry.stream.stream_manager.StreamManager.recover_streams.<locals>.recover_stream", "which hashes are re-checked"),
         ("lbry.extras.daemon.storage.SQLiteStorage.recover_streams", "rows of a recovered stream"),
-        ("lbry.blob.blob_file.BlobFile.__init__", "a present file of the right size is adopted: length and verified"),
         ("lbry.extras.daemon.storage.SQLiteStorage.delete_blobs_from_db", "row deletion"),
         ("lbry.blob.blob_file.is_valid_blobhash", "what a blob file name looks like"),
         ("lbry.blob.blob_file.AbstractBlob.get_is_verified", "verified status"),
@@ -317,12 +343,7 @@ PRIMITIVES = {
         ("lbry.blob.blob_file.BlobFile.file_exists", "file presence"),
     ],
     "C19": [
-        ("lbry.conf.Setting.__set__", "a set value is stored (also when it equals the default)"),
-        ("lbry.conf.Setting.__get__", "value lookup order"),
         ("lbry.conf.Setting.is_set", "whether a setting is set"),
-        ("lbry.stream.stream_manager.StreamManager.create", "published streams: sd blob marked is_mine"),
-        ("lbry.stream.managed_stream.ManagedStream.start", "one file row per stream"),
-        ("lbry.extras.daemon.storage.SQLiteStorage.file_exists", "file row lookup by sd hash"),
         ("lbry.extras.daemon.storage.SQLiteStorage.get_stored_blobs", "candidates of a pass"),
         ("lbry.extras.daemon.storage.SQLiteStorage.add_blobs", "blob rows incl. is_mine"),
         ("lbry.extras.daemon.storage.SQLiteStorage.update_blob_ownership", "is_mine update"),
